@@ -277,9 +277,9 @@ Definition p_scan_ident (tops : option (list text)) (w : text) : toktype * text 
   let top1 := if text_eqb top [] then ident else top in
   if allowed tops (map lower top1) then (IDENTIFIER, ident, k) else (BODY, r_at :: ident, k).
 
-Definition p_scan_expr (w : text) : toktype * text * text :=
+Definition p_scan_expr (ue : bool) (w : text) : toktype * text * text :=
   let '(o, p, k) := p_expr MNorm 1 w in
-  if Nat.eqb p 0 then (EXPRESSION, o, k) else (BODY, r_at :: r_lparen :: o, k).
+  if Nat.eqb p 0 then (EXPRESSION, o, k) else (BODY, r_at :: r_lparen :: (if ue then replace_atat o else o), k).
 
 Definition p_scan_body (ue : bool) (w : text) : toktype * text * text :=
   (BODY, fst (p_body ue w), snd (p_body ue w)).
@@ -292,7 +292,7 @@ Definition p_scan (tops : option (list text)) (ue : bool) (w : text) : toktype *
         match r with
         | [] => p_scan_body ue w
         | d :: r' =>
-            if d =? r_lparen then p_scan_expr r'
+            if d =? r_lparen then p_scan_expr ue r'
             else if d =? r_at then p_scan_body ue w
             else if name_char d then p_scan_ident tops r
             else p_scan_body ue w
